@@ -51,7 +51,8 @@ static std::vector<std::pair<size_t, size_t>> line_spans(const std::string& t) {
 
 static std::vector<Mut> mutations(const Seed& s, bool thorough) {
     std::vector<Mut> m;
-    if (s.level == 3 || s.level == 5) { m.push_back({'I', 0, 0}); return m; }                       // generated SUMMARY sections: run as they are
+    if (s.level == 3 || s.level == 5) { m.push_back({'I', 0, 0}); return m; }
+    if (s.level == 6) { m.push_back({'c', 0, 0}); m.push_back({'c', 1, 0}); return m; }   // root as file / root as string                       // generated SUMMARY sections: run as they are
     if (s.level == 4) { auto ln = line_spans(s.text); for (int i = 1; i < (int)ln.size(); ++i) { m.push_back({'i', i, 0}); m.push_back({'i', i, 1}); } return m; }   // INCLUDE split at every line
     if (s.binary) {
         for (int o = 0; o < (int)s.text.size(); ++o) { for (int v = 0; v < 4; ++v) m.push_back({'x', o, v}); m.push_back({'t', o, 0}); }
@@ -74,7 +75,7 @@ static std::string apply(const Seed& s, const Mut& m) {
     case 'd': { auto ln = line_spans(t); return t.substr(0, ln[m.a].first) + t.substr(ln[m.a].second); }
     case 'u': { auto ln = line_spans(t); return t.substr(0, ln[m.a].second) + t.substr(ln[m.a].first); }
     case 's': { auto ln = line_spans(t); return t.substr(0, ln[m.a].first) + t.substr(ln[m.a + 1].first, ln[m.a + 1].second - ln[m.a + 1].first) + t.substr(ln[m.a].first, ln[m.a].second - ln[m.a].first) + t.substr(ln[m.a + 1].second); }
-    case 'I': case 'i': return t;
+    case 'I': case 'i': case 'c': return t;
     case 't': return t.substr(0, m.a);
     case 'x': { std::string r = t; unsigned char c = r[m.a]; r[m.a] = m.b == 0 ? 0x00 : m.b == 1 ? 0xFF : m.b == 2 ? (c ^ 0x80) : (c + 1); return r; }
     }
@@ -126,6 +127,40 @@ static uint64_t run_include(const std::string& text, int cut, int dir, int cfg) 
     { std::ofstream f(main, std::ios::trunc); if (dir == 0) f << "INCLUDE\n 'part.inc' /\n" << tail; else f << head << "INCLUDE\n 'part.inc' /\n"; }
     try { Deck deck = P->parseFile(main, pc, eg); eg.clear(); return vf::fnv("inc" + std::to_string(deck.size())); }
     catch (const std::exception& e) { eg.clear(); return vf::fnv(std::string("exc:") + typeid(e).name()); }
+}
+// level 6: chains of INCLUDE files of chosen sizes.  code = sequence of digits, one per level: the file of level l consists of
+// a padding comment of (0, 1, 2, 8, 24 or 200) characters, 'INCLUDE <next> /' and a keyword behind it; the last level is a plain
+// keyword.  The root is parsed with parseFile (root a file) or parseString (root a string).  File sizes straddle the small-string
+// limit (15/16) and the storage of the input stack grows while outer files are still open.
+static uint64_t run_chain(const std::string& code, int root_is_string, int cfg) {
+    ParseContext pc; pc.update(cfg == 0 ? InputErrorAction::THROW_EXCEPTION : InputErrorAction::IGNORE);
+    ErrorGuard eg;
+    static const int pad[] = {0, 1, 2, 8, 24, 200};
+    static const char* after[] = {"OIL", "GAS", "WATER", "DISGAS", "VAPOIL", "METRIC", "FIELD", "NOSIM"};
+    const int depth = (int)code.size();
+    std::string root_text;
+    for (int l = depth - 1; l >= 0; --l) {
+        const int cls = (code[l] - '0') % 6; const int pz = pad[cls];
+        std::string t;
+        if (cls >= 2) t += "--" + std::string(pz > 2 ? pz - 2 : 0, 'x') + "\n";      // classes 2..5: a comment line of 2, 8, 24, 200 characters
+        if (l + 1 < depth) t += "INCLUDE\n" + std::string(1, char('B' + l)) + "/\n";
+        t += std::string(after[l % 2]);                            // OIL / GAS: with the INCLUDE record 14 bytes (class 1) or 15 (class 0)
+        if (cls != 1) t += "\n";                                   // class 1: no padding and no final newline
+        if (l == 0) root_text = t;
+        else { std::ofstream f(g_dir + "/" + std::string(1, char('A' + l)), std::ios::trunc); f << t; }
+    }
+    const std::string cwd = fs::current_path().string();
+    try {
+        fs::current_path(g_dir);
+        Deck deck = [&] { if (root_is_string) return P->parseString(root_text, pc, eg); std::ofstream(g_dir + "/ROOT.DATA", std::ios::trunc) << root_text; return P->parseFile(g_dir + "/ROOT.DATA", pc, eg); }();
+        fs::current_path(cwd);
+        eg.clear();
+        uint64_t h = vf::fnv("chain" + std::to_string(deck.size()));
+        for (const auto& kw : deck) h = vf::fnv(kw.name(), h);
+        // every level contributes exactly one keyword, innermost first after the outer ones are resumed
+        if ((int)deck.size() != depth) { std::fprintf(stderr, "runtime error: include chain %s gave %d keywords, expected %d /repo/opm/input/eclipse/Parser/Parser.cpp:0\n", code.c_str(), (int)deck.size(), depth); std::abort(); }
+        return h;
+    } catch (const std::exception& e) { fs::current_path(cwd); eg.clear(); std::fprintf(stderr, "runtime error: include chain %s rejected: %s /repo/opm/input/eclipse/Parser/Parser.cpp:0\n", code.c_str(), e.what()); std::abort(); }
 }
 static uint64_t run_file(const std::string& bytes, const std::string& ext) {
     const std::string fn = g_dir + "/M." + ext;
@@ -223,6 +258,16 @@ static std::vector<Seed> make_seeds(bool thorough) {
             }
         }
     }
+    // INCLUDE chains of depth 1..5 with every combination of file-size classes (level 6)
+    for (int depth = 1; depth <= (thorough ? 5 : 4); ++depth) {
+        std::string code(depth, '0');
+        while (true) {
+            s.push_back({"include-chain:" + code, code, 6});
+            int q = depth - 1; while (q >= 0 && code[q] == '5') { code[q] = '0'; --q; }
+            if (q < 0) break;
+            ++code[q];
+        }
+    }
     // the model deck split over an INCLUDE file at every line, both directions (level 4)
     s.push_back({"include-split:MODEL1", slurp(root + "/data/MODEL1.DATA"), 4});
     return s;
@@ -236,7 +281,7 @@ int main(int argc, char** argv) {
     Parser parser; P = &parser;
     const char* sc = std::getenv("VERIF_SCRATCH");
     g_dir = std::string(sc ? sc : "/tmp") + "/C20." + std::to_string(getpid()); fs::create_directories(g_dir);
-    run.rule = "seeds: a complete model deck (parse + EclipseState + Schedule + SummaryConfig), the same deck with its SUMMARY section replaced by every SUMMARY keyword of the parser alone / followed by TCPU / with 1..3 list entries (SummaryConfig + merge), the same deck split over an INCLUDE file at every line in both directions (parseFile), the same deck with every grid-property operation keyword x (target, source) pair over 14 arrays of all storage kinds appended to its GRID section (EclipseState), one synthesised instance per parser deck name (parse), generated UNRST/FUNRST/SMSPEC+UNSMRY/EGRID files (EclFile/ERst/ESmry/EGrid/EclipseGrid readers); mutations, every single one at every site: token delete/duplicate/replace by each of " + std::to_string(hostile.size()) + " hostile tokens, line drop/duplicate/swap, truncation at every byte (model deck quick: every 7th), for files every byte x {0x00,0xFF,bit7,+1} and truncation at every offset; two ParseContext configurations (all errors THROW / all IGNORE); executed in the ASan+UBSan build in forked workers; oracle: normal return or std::exception - any signal, sanitizer report, foreign exception, exit() or timeout is a violation keyed by (kind, first /repo frame)";
+    run.rule = "seeds: a complete model deck (parse + EclipseState + Schedule + SummaryConfig), the same deck with its SUMMARY section replaced by every SUMMARY keyword of the parser alone / followed by TCPU / with 1..3 list entries (SummaryConfig + merge), the same deck split over an INCLUDE file at every line in both directions (parseFile), chains of INCLUDE files of depth 1..4 (thorough 5) with every combination of 6 file-size classes per level (0..200 padding bytes, with/without final newline; root as file and as string; the parsed deck must hold one keyword per level), the same deck with every grid-property operation keyword x (target, source) pair over 14 arrays of all storage kinds appended to its GRID section (EclipseState), one synthesised instance per parser deck name (parse), generated UNRST/FUNRST/SMSPEC+UNSMRY/EGRID files (EclFile/ERst/ESmry/EGrid/EclipseGrid readers); mutations, every single one at every site: token delete/duplicate/replace by each of " + std::to_string(hostile.size()) + " hostile tokens, line drop/duplicate/swap, truncation at every byte (model deck quick: every 7th), for files every byte x {0x00,0xFF,bit7,+1} and truncation at every offset; two ParseContext configurations (all errors THROW / all IGNORE); executed in the ASan+UBSan build in forked workers; oracle: normal return or std::exception - any signal, sanitizer report, foreign exception, exit() or timeout is a violation keyed by (kind, first /repo frame)";
     run.assumptions = {"'any byte string' is claimed for the single-mutation neighbourhood of the seeds only", "mutants that enlarge DIMENS beyond 1e5 cells are classified resource-heavy and not constructed", "per-case time limit 20 s in the sanitizer build, re-run alone with 150 s before being called a hang; a mutant that replaces a token by 1000000 or a 99999999999-fold repeat and still exceeds it is classified resource-heavy (counted), like mutants enlarging DIMENS"};
 
     auto seeds = make_seeds(run.thorough());
@@ -278,7 +323,7 @@ int main(int argc, char** argv) {
             for (size_t i = next; i < N; ++i) {
                 sh->idx = (long)i; alarm(limit);
                 const Case& c = cases[i]; const Seed& s = seeds[c.seed];
-                try { std::string t = apply(s, c.m); sh->outcome[i] = s.binary ? run_file(t, s.ext) : s.level == 3 ? run_summary(t, c.cfg) : s.level == 4 ? run_include(s.text, c.m.a, c.m.b, c.cfg) : run_text(t, s.level == 5 ? 1 : s.level, c.cfg); }
+                try { std::string t = apply(s, c.m); sh->outcome[i] = s.binary ? run_file(t, s.ext) : s.level == 3 ? run_summary(t, c.cfg) : s.level == 4 ? run_include(s.text, c.m.a, c.m.b, c.cfg) : s.level == 6 ? run_chain(s.text, c.m.a, c.cfg) : run_text(t, s.level == 5 ? 1 : s.level, c.cfg); }
                 catch (...) { sh->foreign = 1; _exit(87); }
                 if (limit != LIM1) break;        // a retried case runs alone
             }
